@@ -36,7 +36,7 @@ PROFILES = {
                 autorestart=['false', 'false', 'unexpected', 'true', 'true'], p_autostart=0.4, p_late_boot=0.4,
                 quiesce=60.0, latencies=[{'lo': 0.0002, 'hi': 0.02}, {'lo': 0.001, 'hi': 0.3}, {'lo': 0.01, 'hi': 1.5},
                                          {'lo': 0.05, 'hi': 3.0}]),
-    'C03': dict(BASE, no_restart_storm=True, max_faults=3, min_faults=0, ops={'start_application': 3, 'restart_application': 2,
+    'C03': dict(BASE, no_restart_storm=True, p_crash_near_op=0.4, max_faults=3, min_faults=0, ops={'start_application': 3, 'restart_application': 2,
                                                          'restart_sequence': 1}, max_ops=5,
                 fault_weights={'crash': 1, 'restart': 2, 'child_exit': 2},
                 conciliation_strategies=['SENICIDE', 'INFANTICIDE', 'USER', 'STOP'],
@@ -97,6 +97,9 @@ PROFILES = {
                 startsecs=[0, 1, 2, 4, 8, 12], stopwaitsecs=[1, 2, 4, 8, 12], startretries=[0, 1, 2, 3],
                 p_wait_exit=0.0, event_drop=True, supvisors_failure_strategies=['CONTINUE'], need_timeout=True,
                 quiesce=120.0),
+    'C11': dict(builder='puppet', p_managed=0.8, p_numprocs=0.2, p_autostart=0.1, n_groups=[1, 2, 2], n_programs=[1, 2, 3],
+                child_kinds=SIMPLE_CHILDREN, supvisors_failure_strategies=['CONTINUE'], p_auto_fence=0.3,
+                inactivity_ticks=[2, 2, 3], hostile=0.0, window=(18.0, 160.0), quiesce=45.0, n_events=(10, 120)),
     'C02': dict(BASE, max_faults=5, ops='fsm'),
     'C16': dict(BASE, max_faults=5, ops='all', p_absent=0.3, p_shared_node=0.5),
 }
@@ -104,15 +107,31 @@ PROFILES = {
 
 def build(prop, seed):
     prof = PROFILES[prop]
-    builder = prof.get('builder')
-    if builder:
-        return builder(prop, seed, prof)
+    if prof.get('builder') == 'puppet':
+        from . import puppetgen
+        return puppetgen.build(prop, seed, prof)
     rng = random.Random(kernel.hash64(seed, 'gen'))
     config = gen.gen_config(rng, prof)
     plan = gen.gen_boots(rng, prof, config)
     plan += gen.gen_faults(rng, prof, config)
     from . import ops
     plan += ops.gen_ops(rng, prof, config)
+    if rng.random() < prof.get('p_crash_near_op', 0.0):
+        # a host lost around a start request: dead but not yet detected when the request leaves, or lost between the
+        # request and its first event
+        starts = [i for i in plan if i['kind'] == 'rpc' and i['method'].split('.')[-1] in
+                  ('start_application', 'restart_application', 'start_process', 'restart_process', 'restart_sequence')
+                  and 't' in i]
+        nicks = [s_['nick'] for s_ in config['instances']]
+        if starts and len(nicks) > 1:
+            op = gen.pick(rng, starts)
+            if rng.random() < 0.5:
+                plan.append({'t': round(max(1.0, op['t'] - rng.uniform(0.2, 9.0)), 3), 'kind': 'crash',
+                             'inst': gen.pick(rng, nicks)})
+            else:
+                plan.append({'kind': 'crash', 'inst': '$dst',
+                             'trigger': {'wire': 'supvisors.start_args', 'n': rng.randint(1, 4), 'after': op['t'] - 1.0,
+                                         'delay': gen.pick(rng, [0.0, 0.0, 0.001, 0.05, 0.5])}})
     t_end = prof['fault_window'][1] + prof['quiesce'] + config['supvisors']['synchro_timeout']
     scen = {'prop': prop, 'seed': seed, 'config': config, 'plan': plan, 't_end': t_end}
     if prof.get('event_drop'):
@@ -149,6 +168,9 @@ def observers_for(prop, scen):
     elif prop == 'C07':
         from oracles import detection
         obs.append(detection.FailureDetection())
+    elif prop == 'C11':
+        from oracles import synthesis
+        obs.append(synthesis.Synthesis())
     return obs
 
 
